@@ -486,7 +486,22 @@ def queue_fill(seed, proto):
     b = Builder(proto, rng)
     b.preamble()
     b.op(op="quiesce")
-    if rng.random() < 0.3:
+    if rng.random() < 0.35:
+        # the outage begins with write failures: 1..2 retryable messages are cut off and return to the
+        # held ones (they count towards the ten), later attempts are refused
+        b.op(op="resolve", how="ok")
+        b.op(op="quiesce")
+        for _ in range(rng.randrange(1, 3)):
+            b.op(op="arm_fault", nth=rng.randrange(1, 4))
+            b.send(rng.choice([POL_IDEM, POL_IDEM, {"policy": {"retries": 1, "lifetime_ms": 2000}}, POL_NONIDEM]))
+            b.op(op="quiesce")
+            b.op(op="resolve", how=rng.choice(["refuse", "refuse", "ok"]))
+            b.op(op="quiesce")
+        b.op(op="peer_reset")
+        b.op(op="quiesce")
+        b.op(op="resolve_all", how="refuse")
+        b.op(op="quiesce")
+    elif rng.random() < 0.3:
         b.op(op="resolve", how="refuse")
         b.op(op="quiesce")
     for _ in range(rng.randrange(8, 15)):
